@@ -153,6 +153,7 @@ LEX_POOL = [
     "true", "false", "50%", "-12.5%", "0.5%", "100%", "0%", "150%", "1000%", "1.5pt", "2in", "-3.2mm", "1cm", "1pc", "1pi", "0in", "12700",
     "FF00aa", "ff0000", "000000", "1.5", "1e3", "INF", "-INF", "NaN", "1.0E2", "0.0", "-0.0", ".5", "5.", "100000", "50000", "-50000",
     "Internal", "External", "abc", "rId1", "", "a b", "http://x/y", "application/xml", "xml",
+    " 1 ", "\ttrue\n", " false", "0 ",  # (xsd:boolean, like the numbers, collapses white space: valid forms of 1, true, false, 0)
 ]
 
 # quantum (absolute tolerance) for read-back, by simple-type class name
@@ -450,6 +451,11 @@ def check_attr(T, cls, d, acc, grid):
         # an enumeration class claims exactly the schema's tokens; on a free-string attribute (lang) the
         # values met in documents are read by the corpus unit instead
         pool = [t for t in pool if any(t in (m.enumeration(ty) or []) for ty in types)]
+        # ... in every lexical form: an xsd:token enumeration collapses white space, ' ctr ' is the token ctr (libxml2 decides
+        # below whether the padded form is valid for the declared type)
+        # (tokens the class maps at all: a token without a member is reported once, in its plain form)
+        mapped = [t for t in pool if any(getattr(mem, "xml_value", None) == t for mem in st)]
+        pool += [" %s " % t for t in mapped[:1]] + ["\n%s\t" % t for t in mapped[1:2]]
     elif own is None:
         acc.count("classes_without_same_named_xsd_type")
     readings = {}
@@ -476,7 +482,7 @@ def check_attr(T, cls, d, acc, grid):
             readings[text] = got_form
         except Exception as e:  # noqa
             if is_enum:
-                key = "unreadable-token:%s:%s" % (stname, text)
+                key = "unreadable-token:%s:%s" % (stname, text if text == text.strip() else "surrounding-whitespace")
             else:
                 key = "unreadable-form:%s:%s" % (stname, lex_class(text))
             acc.violation(key, "%s=%r is schema-valid but the getter raises %s: %s" % (ident, text, type(e).__name__, e), {"T": T, "prop": d["prop"], "text": text})
@@ -514,7 +520,9 @@ def equivalent_plain_form(text):
     if m:
         v = decimal.Decimal(m.group(1)) * _UM[m.group(2)]
         return str(int(v)) if v == v.to_integral_value() else None
-    return {"true": "1", "false": "0"}.get(text)
+    if text != text.strip() and text.strip() in ("0", "1"):
+        return text.strip()
+    return {"true": "1", "false": "0"}.get(text.strip())
 
 
 BUILTIN_OF = {
